@@ -73,12 +73,9 @@ def replay_plans(quick):
     base = {"PRaise": {"ErrI"}, "CatchThrow": True, "MisbehaveClose": False, "AsCoded": True, "PosKinds": {"locate"},
             "Positions": {0}, "Offsets": {1}, "Styles": {"self", "status", "tree"}}
     if quick:
-        return [dict(base, Kinds={"run", "subs", "suspend", "monitor_during", "fly_during"}, MaxOps=4, PMsgs=2,
-                     Thrown={"Err", "Stop", "Abort"}, Forests="<- FShared", DevLists="<- Items2"),
-                dict(base, Kinds={"stage", "lazy_stage"}, MaxOps=4, PMsgs=2, Thrown={"Err", "Abort"},
-                     Forests="<- FShared", DevLists="<- Lists4x2")]
+        return [dict(base, Kinds=set(KINDS), MaxOps=4, PMsgs=2, Thrown={"Err", "Abort"}, Forests="<- FShared", DevLists="<- ListsCurated")]
     return [dict(base, Kinds={"run", "subs", "suspend", "monitor_during", "fly_during"}, MaxOps=6, PMsgs=3,
-                 Thrown={"Err", "Stop", "Abort"}, Forests="<- FShared", DevLists="<- Items3", MisbehaveClose=True),
+                 Thrown={"Err", "Stop", "Abort"}, Forests="<- FShared", DevLists="<- Lists4x3", MisbehaveClose=True),
             dict(base, Kinds={"stage"}, MaxOps=5, PMsgs=2, Thrown={"Err", "Stop", "Abort"}, Forests="<- FBoth",
                  DevLists="<- Lists4x3"),
             dict(base, Kinds={"lazy_stage"}, MaxOps=5, PMsgs=3, Thrown={"Err", "Abort"}, Forests="<- FBoth",
@@ -133,51 +130,69 @@ def run_paired(ctx, prop, exhaustive_cfg, kinds, invs, plans, pool, kf_sig, kf_w
     for k in kf_sig:
         if k not in kf_seen_model:
             raise MachineryError(f"the as-coded alternative of open finding {k} was not generated (vacuous exemption)")
-    # executions that left the behaviour they were derived from (unspecified unsubscribe order, as-coded alternatives):
-    # still genuine executions; they must be behaviours of the specification
-    validate(ctx, prop, deferred, "deferred", kf_sig, kf_what, count_cases=False)
+    # executions that left the behaviour they were derived from (unspecified unsubscribe order, as-coded alternatives)
+    # are still genuine executions; they must be behaviours of the specification
+    seen = set()
+    batch = []
+    for t in deferred:
+        key = json.dumps([t["cfg"], t["h"]], sort_keys=True)
+        if key not in seen and t["h"]:
+            seen.add(key)
+            t["src"] = f"replay of a TLC behaviour through the {t['src']} implementation"
+            t["count"] = False
+            batch.append(t)
 
     # ---- 3. code -> spec ------------------------------------------------------------------------------------------
     rng = random.Random(ctx.seed)
     n1, n2 = (150, 120) if ctx.quick else (5000, 2500)
-    traces = wp.random_paired_traces(rng, n1, pool)
-    for t in traces:
-        t["src"] = "random chain, scripted driver"
-    validate(ctx, prop, [t for t in traces if t["cfg"]["kind"] in kinds], "chains", kf_sig, kf_what, corrupt=True)
-    traces = wp.re_paired_traces(rng, n2, pool)
-    for t in traces:
-        t["src"] = "random chain, real RunEngine"
-    mine = [t for t in traces if t["cfg"]["kind"] in kinds]
-    nled = sum(1 for t in mine if t["led"] and t["ledger"])
-    ctx.note(f"RunEngine executions: {len(mine)} wrapper traces, {nled} with a non-empty device ledger compared")
+    for src, traces in (("random chain, scripted driver", wp.random_paired_traces(rng, n1, pool)),
+                        ("random chain, real RunEngine", wp.re_paired_traces(rng, n2, pool))):
+        for t in traces:
+            if t["cfg"]["kind"] in kinds:
+                t["src"] = src
+                t["count"] = True
+                batch.append(t)
+    nled = sum(1 for t in batch if t["led"] and t["ledger"])
+    ctx.note(f"{len(batch)} implementation traces to validate, {nled} of them RunEngine executions with a non-empty device ledger")
     if nled == 0:
         raise MachineryError("no device ledger was compared (vacuous ledger check)")
-    validate(ctx, prop, mine, "runengine", kf_sig, kf_what, corrupt_ledger=True)
+    validate(ctx, prop, batch, kf_sig, kf_what)
 
 
-def validate(ctx, prop, traces, tag, kf_sig, kf_what, count_cases=True, corrupt=False, corrupt_ledger=False):
-    if not traces:
-        return
+def corrupted(part):
+    """binding self-check: corrupted copies of real traces (wrong outcome, dropped message, dropped ledger entry)"""
+    out = []
+    bare = lambda t: copy.deepcopy({k: t[k] for k in ("cfg", "h", "ledger", "led")})   # noqa: E731
+    for t in part:
+        if len(t["h"]) >= 6 and t["h"][-1]["g"] == "out" and t["h"][-1]["r"] in ("return", "raise") and not t["led"]:
+            c1 = bare(t)
+            c1["h"][-1]["r"] = "return" if c1["h"][-1]["r"] != "return" else "raise"
+            c2 = bare(t)
+            del c2["h"][max(j for j, e in enumerate(c2["h"][:-1]) if e["g"] == "out")]
+            out += [c1, c2]
+            break
+    for t in part:
+        if t["led"] and len(t["ledger"]) >= 2:
+            c3 = bare(t)
+            del c3["ledger"][-1]
+            out.append(c3)
+            break
+    return out
+
+
+def validate(ctx, prop, traces, kf_sig, kf_what):
     chunk = 3000
+    n_corrupt = 0
     for c0 in range(0, len(traces), chunk):
         part = traces[c0:c0 + chunk]
-        extra = []
-        if c0 == 0 and corrupt:      # binding self-check: a corrupted copy must be rejected
-            for t in part:
-                if len(t["h"]) >= 6 and t["h"][-1]["g"] == "out" and t["h"][-1]["r"] in ("return", "raise"):
-                    c1 = copy.deepcopy({k: t[k] for k in ("cfg", "h", "ledger", "led")})
-                    c1["h"][-1]["r"] = "return" if c1["h"][-1]["r"] != "return" else "raise"
-                    c2 = copy.deepcopy({k: t[k] for k in ("cfg", "h", "ledger", "led")})
-                    k = max(j for j, e in enumerate(c2["h"][:-1]) if e["g"] == "out")
-                    del c2["h"][k]
-                    extra = [c1, c2]
-                    break
+        extra = corrupted(traces) if c0 == 0 else []
+        n_corrupt += len(extra)
         payload = [{k: t[k] for k in ("cfg", "h", "ledger", "led")} for t in part] + extra
-        v = validate_traces("PairedTrace", "PairedTrace.cfg", payload, SD, ctx.out, tag=f"{prop}{tag}", timeout=3400)
-        ctx.add_tlc(v.res, f"PairedTrace {tag} ({len(part)} traces)")
+        v = validate_traces("PairedTrace", "PairedTrace.cfg", payload, SD, ctx.out, tag=f"{prop}t", timeout=3400)
+        ctx.add_tlc(v.res, f"PairedTrace ({len(part)} traces)")
         for j in range(len(extra)):
-            if len(part) + j not in v.rejected:
-                raise MachineryError("a corrupted trace was accepted by PairedTrace (binding broken)")
+            if not v.invariant and len(part) + j not in v.rejected:
+                raise MachineryError("a corrupted trace / ledger was accepted by PairedTrace (binding broken)")
         ends = {}
         for a, b in re.findall(r'<<"END", (\d+), (\d+)>>', v.res.stdout):
             ends.setdefault(int(a) - 1, set()).add(int(b))
@@ -185,19 +200,23 @@ def validate(ctx, prop, traces, tag, kf_sig, kf_what, count_cases=True, corrupt=
             t = part[v.inv_trace_index] if v.inv_trace_index is not None and v.inv_trace_index < len(part) else None
             ctx.violation(f"trace-invariant:{v.invariant}:{cfg_key(t['cfg']) if t else '?'}",
                           f"{v.invariant} violated on an implementation trace ({t['src'] if t else ''}): "
-                          f"{[wp.short(e) for e in t['h']] if t else ''} ledger={[wp.short_v(x) for x in t['ledger']] if t else ''}",
+                          f"{[wp.short(e) for e in t['h']] if t else ''}",
                           {"trace": {k: t[k] for k in ("cfg", "h", "ledger", "led")} if t else None})
             continue        # TLC stops at the first violated invariant: the rest of the chunk is not judged
         n_acc = 0
         for idx, t in enumerate(part):
-            if count_cases:
+            if t.get("count", True):
                 ctx.case((cfg_key(t["cfg"]), tuple(wp.short(e) for e in t["h"])), nontrivial(t["h"]))
             if idx in v.rejected:
                 upto = v.rejected[idx]
                 evs = [wp.short(e) for e in t["h"]]
-                ctx.violation(f"trace-rejected:{t['cfg']['kind']}:{wp.short(t['h'][upto]) if upto < len(t['h']) else 'end'}",
+                where = wp.short(t["h"][upto]) if upto < len(t["h"]) else "end"
+                if upto == len(t["h"]) - 1 and t["led"]:
+                    where += "/ledger"
+                ctx.violation(f"trace-rejected:{t['cfg']['kind']}:{where}",
                               f"execution of the real {t['cfg']['kind']} wrapper ({t['src']}) is not a behaviour of Paired.tla: "
-                              f"event {upto} of {evs}" + (f"; derived from TLC behaviour {[wp.short(e) for e in t['spec_h']]}" if "spec_h" in t else ""),
+                              f"event {upto} of {evs}" + (f" ledger {[wp.short_v(x) for x in t['ledger']]}" if t["led"] else "")
+                              + (f"; derived from TLC behaviour {[wp.short(e) for e in t['spec_h']]}" if "spec_h" in t else ""),
                               {"trace": {k: t[k] for k in ("cfg", "h", "ledger", "led")}, "accepted_prefix": upto})
                 continue
             n_acc += 1
@@ -207,12 +226,5 @@ def validate(ctx, prop, traces, tag, kf_sig, kf_what, count_cases=True, corrupt=
                     ctx.violation(kf_sig[k], f"{kf_what[k]}; {t['src']}: {[wp.short(e) for e in t['h']]}",
                                   {"trace": {k2: t[k2] for k2 in ("cfg", "h", "ledger", "led")}})
         ctx.traces(n_acc)
-    if corrupt_ledger:
-        for t in traces:
-            if t["led"] and len(t["ledger"]) >= 2:
-                c = copy.deepcopy({k: t[k] for k in ("cfg", "h", "ledger", "led")})
-                del c["ledger"][-1]
-                v = validate_traces("PairedTrace", "PairedTrace.cfg", [c], SD, ctx.out, tag=f"{prop}led", timeout=600)
-                if v.invariant != "LedgerMatches":
-                    raise MachineryError("a corrupted device ledger was accepted by PairedTrace (binding broken)")
-                break
+    if n_corrupt < 3:
+        raise MachineryError("could not build the corrupted traces for the binding self-check")
